@@ -13,9 +13,9 @@ CLAIMS = {
  "C04": dict(text="Theorems (Props/C04.v over Proofs/ChainProofs.v + VerifyChain.v, corollaries of the C03 theorems for the glob model): a closed rule list [REQUIRE f..; MATCH * WITH PRODUCTS FROM prev; DISALLOW *] accepts iff the item's artifact map equals the referenced link's map (path -> hash record), any difference fails with a rule error; lifted through in_toto_verify's stages: acceptance implies the equality at every closed step boundary and for the closing inspection of the final product; a boundary whose maps differ is never accepted. That the maps are the recorded trees is C10/C11, that links are authentic C02. Tie: chains recorded with the real in_toto_run/record tools under derived closed layouts, one tamper event per re-run (file edit/add/delete/rename/same-content rewrite/uncovered file at every boundary and the final product; link edit/removal/exchange), real in_toto_verify vs the property oracle and vs the extracted Verify model.",
              note=TB + "closed chain layouts are the two families of DESIGN C04 (harness/chain.py derive_layout); SHA-256/recording are oracles; the completeness direction through signatures/thresholds is covered by correspondence only.",
              tech="Coq proof (closed rule list <-> map equality, lifted through the verification stages) + end-to-end differential runs with tamper events"),
- "C11": dict(text="Theorems (Props/C11.v over Model/Run.v): in_toto_run takes the materials snapshot before and the products snapshot after the command, records command line, exit status and (iff requested) output, names the file after the signature's key id, and yields no link if recording or the command fails; rule level of 'honest chains verify': the derived layouts' product rules pass for every link and the closed material rules pass whenever a step starts from what the previous one left. Tie: the real in_toto_run and in_toto_record_start/stop are run on scratch trees with scripted commands that create/modify/delete/rename files, with four independent snapshots (materials/products x before/after) taken by the harness, against the extracted model; every honest chain is verified with the real in_toto_verify (must accept) and the Verify model.",
-             note=TB + "recording (C10) and the child process are oracles of the run model; the honest-verifies theorem is proved at the rule level only (signature/threshold stages: correspondence).",
-             tech="Coq proof (order of observations, link assembly, rule-level completeness) + differential runs of the real recording tools and verifier"),
+ "C11": dict(text="Theorems (Props/C11.v over Model/Run.v, Proofs/HonestChain.v): in_toto_run takes the materials snapshot before and the products snapshot after the command, records command line, exit status and (iff requested) output, names the file after the signature's key id, and yields no link if recording or the command fails; completeness on the executable model of in_toto_verify: for every chain length n >= 1 an honest scenario (authentic fresh layout, derived closed-chain layout, functionaries' keys in the store, each step's signed link present, materials(i+1) = products(i) as maps, optional closing inspection) is accepted with the expected summary link and trace, independent of other files and sub-directories (C11_honest_verifies, C11_honest_verifies_inspection). Tie: the real in_toto_run and in_toto_record_start/stop are run on scratch trees with scripted commands that create/modify/delete/rename files, with four independent snapshots (materials/products x before/after) taken by the harness, against the extracted model; every honest chain is verified with the real in_toto_verify (must accept) and the Verify model.",
+             note=TB + "recording (C10) and the child process are oracles of the run model; layout authenticity and link signature validity are hypotheses of the honest-chain theorem (C01/C02); py_eqb symmetry proved for hash records with unique keys.",
+             tech="Coq proof (order of observations, link assembly, whole-pipeline completeness by stage lemmas and list induction) + differential runs of the real recording tools and verifier"),
  "C17": dict(text="Theorems (Props/C17.v): the rule parser accepts exactly the documented grammar with one meaning, is total (meaning or FormatError for every JSON value), round-trips through pack_rule. Tied to the source on every run two ways: rulelib.unpack_rule/pack_rule and the formats._check_* helpers are regenerated into Gallina by tools/pytrans.py and proved extensionally equal to the model (Tie/C17.v), and the real functions are run against the extracted model on generated token lists.",
              note=TB + "translator + PyLib.v semantics of the translated Python fragment; non-ASCII str.lower() treated as oracle, swept over all code points at run time.",
              tech="Coq proof (grammar = parser, totality, round trip) + regenerated-source tie theorem + differential correspondence"),
